@@ -238,6 +238,9 @@ pub fn drive(ob: &str, scope: &str, f: impl Fn(&mut Ctx) + Sync) {
                 truncated = true;
                 break;
             }
+            if STOP.load(std::sync::atomic::Ordering::SeqCst) {
+                break;
+            }
             // advance the odometer over the digits consumed by this run (digit 0 advances by `jobs`)
             let mut d: Vec<(usize, usize)> = ctx.digits[..ctx.pos].to_vec();
             let mut next: Option<Vec<usize>> = None;
@@ -332,4 +335,32 @@ pub fn drive(ob: &str, scope: &str, f: impl Fn(&mut Ctx) + Sync) {
     }
     s.push_str("]}\n");
     std::fs::write(&out, s).expect("cannot write VERIF_OUT");
+    if STOP.load(std::sync::atomic::Ordering::SeqCst) {
+        // a leaked helper thread may still be running away: leave now
+        std::process::exit(0);
+    }
+}
+
+/// Run `f` on a helper thread; None if it does not finish within `secs` (the thread is leaked: the caller must
+/// stop enumerating and let the process exit soon, see `Ctx::stop`).
+pub fn run_with_timeout<T: Send + 'static>(secs: u64, f: impl FnOnce() -> T + Send + 'static) -> Option<T> {
+    let (tx, rx) = std::sync::mpsc::channel();
+    std::thread::spawn(move || {
+        let r = catch_unwind(AssertUnwindSafe(f));
+        let _ = tx.send(r);
+    });
+    match rx.recv_timeout(std::time::Duration::from_secs(secs)) {
+        Ok(Ok(v)) => Some(v),
+        Ok(Err(e)) => std::panic::resume_unwind(e),
+        Err(_) => None,
+    }
+}
+
+pub static STOP: std::sync::atomic::AtomicBool = std::sync::atomic::AtomicBool::new(false);
+
+impl Ctx {
+    /// Ask every worker to stop after the current case (used after a non-termination was observed)
+    pub fn stop(&mut self) {
+        STOP.store(true, std::sync::atomic::Ordering::SeqCst);
+    }
 }
